@@ -113,13 +113,19 @@ def mutate(r, b):
     kinds = ["len0", "lenhuge", "lenneg1", "count0", "counthuge", "countneg", "gcount+", "gcount-", "gcounthuge",
              "gcountneg", "icount+", "icount-", "icount0", "icounthuge", "icountneg", "atomidx", "pairidx",
              "pairfwd", "underflow", "leftover", "extreme", "overlong", "truncate", "trailing", "flip", "ff",
-             "swapcons", "nomagic", "badmagic", "lenshift"]
+             "swapcons", "nomagic", "badmagic", "lenshift", "len0clean", "appendnil"]
     k = r.choice(kinds)
     g = r.randrange(len(m.groups)) if m.groups else None
-    if k in ("len0", "lenhuge", "lenneg1", "count0", "counthuge", "countneg", "lenshift") and g is None:
+    if k in ("len0", "lenhuge", "lenneg1", "count0", "counthuge", "countneg", "lenshift", "len0clean") and g is None:
         k = r.choice(["gcount+", "icount+", "atomidx", "truncate", "overlong"])
     if k == "len0":
         m.groups[g][0] = 0
+    elif k == "len0clean":
+        # a zero-length atom entry with no payload: the rest of the blob stays aligned
+        m.groups[g] = [0, None, b""]
+    elif k == "appendnil":
+        m.groups.append([0, None, b""])
+        m.group_count += 1
     elif k == "lenhuge":
         v = r.choice(HUGE)
         m.groups[g][0] = v if m.groups[g][1] is None else -v
